@@ -185,11 +185,13 @@ def build_harness(profile):
     cmd = ["cargo", "build", "--quiet"]
     if profile == "release":
         cmd.append("--release")
+    elif profile != "dev":
+        cmd += ["--profile", profile]
     e = dict(os.environ, CARGO_NET_OFFLINE="true")
     p = subprocess.run(cmd, cwd=HARNESS, env=e, stdout=subprocess.PIPE, stderr=subprocess.STDOUT, text=True)
     if p.returncode != 0:
         raise ToolError("harness build (%s) failed:\n%s" % (profile, p.stdout[-4000:]))
-    return os.path.join(TARGET, "debug" if profile == "dev" else "release", "vharness")
+    return os.path.join(TARGET, "debug" if profile == "dev" else profile, "vharness")
 
 
 def harness_gen(binary, family, seed, count, tier, out, params=None):
@@ -679,7 +681,7 @@ def run_replay(prop, path):
 
 def setup():
     try:
-        for prof in ("dev", "release"):
+        for prof in ("dev", "release", "relda", "reloc"):
             build_harness(prof)
             log("harness %s built" % prof)
     except ToolError as e:
